@@ -156,7 +156,8 @@ def budgets_for(tier: str, cfg=None) -> Dict[str, int]:
 
 
 class ConfigExplorer:
-    def __init__(self, acc: Acc, cfg: Cfg, tier: str, checkers: Sequence[Checker], on_searcher=None, db_hook=None):
+    def __init__(self, acc: Acc, cfg: Cfg, tier: str, checkers: Sequence[Checker], on_searcher=None, db_hook=None, bound: Optional[int] = None):
+        self.bound = bound  # deviation bound; default: deviation_bound(cfg, tier)
         self.acc = acc
         self.cfg = cfg
         self.tier = tier
@@ -213,8 +214,8 @@ class ConfigExplorer:
         return ex
 
     def explore_e2(self) -> None:
-        budgets = budgets_for(self.tier, self.cfg)
-        total = deviation_bound(self.cfg, self.tier)
+        total = self.bound if self.bound is not None else deviation_bound(self.cfg, self.tier)
+        budgets = {k: (total if v else 0) for k, v in budgets_for(self.tier, self.cfg).items()}
         if total >= 2:
             # bound 2 is quadratic in the number of decision points: it is used where the default
             # execution has at most BOUND2_MAX_POINTS of them, bound 1 elsewhere (counted)
